@@ -96,6 +96,7 @@ void vp_reader()
         vp_assert(static_cast<bool>(s), 403);
         int a = s->a;
         int b = s->b;
+        vp_log(404, a * 100 + b);
         vp_assert(a == b, 404);                        // complete state
         vp_assert(a >= prev, 405);
         vp_point();                                    // keep the snapshot across later commits
